@@ -38,7 +38,12 @@ RULE = ('Crash points: every prefix length 0..N of the server-to-client byte '
         'connection.exception, from a thread that ends without raising.  '
         'Non-trivial = the cut falls inside the '
         'stream (0 < k < N); distinct = distinct (conversation, connection, '
-        'offset, delivery, what follows, refusal).')
+        'offset, delivery, what follows, refusal).  Conversations whose '
+        'status queries are ALL cut (a server that never answers status): '
+        'with the default version outside the allowed set, and with the '
+        'default being the newest allowed version; the documented fallback '
+        'is exactly one login with the default version, never a further '
+        'query.')
 ASSUMPTIONS = ['vnet end-of-stream semantics (read returns b"" forever, '
                'select reports readable) match real sockets '
                '(selftest/vnet_conformance)',
@@ -73,6 +78,11 @@ CONVERSATIONS = {
     'negotiate-outside': dict(kind='connect', versions=(757, 340),
                               initial=47, all_status=True,
                               login=[('success',)], play=[('keepalive', 7)]),
+    # the same with the default version being the NEWEST allowed one (what a
+    # Connection without initial_version has)
+    'negotiate-newest': dict(kind='connect', versions=(757, 47), initial=757,
+                             all_status=True, fallback_ref='login-newest',
+                             login=[('success',)], play=[('keepalive', 7)]),
     'compress': dict(kind='connect1', login=[('compress', 64), ('success',)],
                      play=PLAY[:4]),
     'encrypt': dict(kind='connect1',
@@ -84,6 +94,8 @@ CONVERSATIONS = {
     # with the default version - looks like on a fresh Connection
     'login-default': dict(kind='connect1', version=47, login=[('success',)],
                           play=[('keepalive', 7)], ref_only=True),
+    'login-newest': dict(kind='connect1', version=757, login=[('success',)],
+                         play=[('keepalive', 7)], ref_only=True),
 }
 FALLBACK_REF = 'login-default'
 # what follows the cut: nothing / the exception handler starts the same
@@ -469,7 +481,7 @@ def offsets(ctx, total, ends, quick_stride):
 def w_cut(ctx, task):
     name, ci, k, bytewise, then, refuse = task
     ref = get_ref(name)
-    fb = get_ref(FALLBACK_REF) \
+    fb = get_ref(CONVERSATIONS[name].get('fallback_ref', FALLBACK_REF)) \
         if CONVERSATIONS[name]['kind'] == 'connect' else None
     x = run_one(name, (ci, k), bytewise, then, refuse)
     ctx.count()
